@@ -286,6 +286,16 @@ func Run(cfg Config, ch *Choices, main func()) *Result {
 	// everything the tasks wrote before the root reads it (matters in the race build).
 	settle()
 
+	for i := range s.hist {
+		if c := s.hist[i].Ch; c > 0 {
+			s.hist[i].ChName = s.chans[c-1].name
+		}
+
+		if s.cfg.KeepLog {
+			s.logText = push(s.logText, s.hist[i].String())
+		}
+	}
+
 	res := &Result{
 		Hist:        s.hist,
 		Steps:       s.step,
